@@ -21,9 +21,18 @@ type DecNode struct {
 func (c Cfg) parseKey(raw []byte) (uint64, error) {
 	switch c.KK {
 	case "vk", "u64":
-		return strconv.ParseUint(string(raw), 10, 64)
+		var v uint64
+		err := json.Unmarshal(raw, &v)
+		if err == nil && strings.TrimSpace(string(raw)) == "null" {
+			err = errors.New("null key")
+		}
+		return v, err
 	case "i64":
-		v, err := strconv.ParseInt(string(raw), 10, 64)
+		var v int64
+		err := json.Unmarshal(raw, &v)
+		if err == nil && strings.TrimSpace(string(raw)) == "null" {
+			err = errors.New("null key")
+		}
 		return uint64(v + i64bias), err
 	case "str":
 		var s string
@@ -67,6 +76,9 @@ func readSlice(buf []byte) ([][]byte, []byte, error) {
 		return nil, nil, errors.New("bad count")
 	}
 	buf = buf[k:]
+	if n > uint64(len(buf)) {
+		return nil, nil, errors.New("count exceeds the remaining bytes")
+	}
 	out := make([][]byte, 0, n)
 	for i := uint64(0); i < n; i++ {
 		l, k := binary.Uvarint(buf)
